@@ -13,6 +13,7 @@
 """
 
 import ast
+import os
 
 from .absint import FALSE, NONE, TOP, TRUE, Undecided, exc, heap_key, is_handle, own_names, unbox_deep, val
 from .astutil import FUNC_TYPES, attr_chain, dotted
@@ -435,6 +436,13 @@ class ObjectDomain(EffectDomain):
     # -- calling things --------------------------------------------------------------------------
     @staticmethod
     def _bind(f, pos, kw, skip_first):
+        got = ObjectDomain._bind_raw(f, pos, kw, skip_first)
+        if got is None and os.environ.get("TTSA_TRACE_EXC") == "TypeError":
+            print("BIND-FAILS", getattr(f, "name", "?"), "pos", str(pos)[:200], "kw", str(kw)[:300])
+        return got
+
+    @staticmethod
+    def _bind_raw(f, pos, kw, skip_first):
         a = f.args
         params = [p.arg for p in a.posonlyargs + a.args][1 if skip_first else 0:]
         kwonly = [p.arg for p in a.kwonlyargs]
@@ -1084,6 +1092,35 @@ class ObjectDomain(EffectDomain):
                 else:
                     out.append(val(TOP, r.state))
             return out
+        if d == "iter" and len(call.args) == 1 and not call.keywords:
+            # iter(<exact sequence>): an iterator object with its own position (a heap object: next() advances it for every holder)
+            got = interp._forced(interp.eval(call.args[0], st, fr), fr)
+            if got and all(r.kind == "exc" or interp._exact_elements(r.value) is not None for r in got):
+                out = []
+                for r in got:
+                    if r.kind == "exc":
+                        out.append(r)
+                        continue
+                    n = r.state.get("ev.heap", 0)
+                    out.append(val(("h", n), r.state.set("ev.heap", n + 1).set(heap_key(("h", n)), ("iter", ("tuple",) + tuple(interp._exact_elements(r.value))))))
+                return out
+        if d == "next" and 1 <= len(call.args) <= 2 and not call.keywords and isinstance(call.args[0], (ast.Name, ast.Attribute)):
+            got = interp.eval(call.args[0], st, fr, share=True)
+            if got and all(r.kind == "exc" or (is_handle(r.value) and isinstance(r.state.get(heap_key(r.value), None), tuple) and r.state.get(heap_key(r.value))[:1] == ("iter",)) for r in got):
+                out = []
+                for r in got:
+                    if r.kind == "exc":
+                        out.append(r)
+                        continue
+                    hk = heap_key(r.value)
+                    rest = r.state.get(hk)[1]
+                    if len(rest) > 1:
+                        out.append(val(rest[1], r.state.set(hk, ("iter", ("tuple",) + tuple(rest[2:])))))
+                    elif len(call.args) == 2:
+                        out.extend(interp.eval(call.args[1], r.state, fr))
+                    else:
+                        out.append(exc(("exc", "StopIteration"), r.state))
+                return out
         if d == "iter" and len(call.args) == 2 and not call.keywords:
             return [r if r.kind == "exc" else val(("calliter", r.value[0], r.value[1]), r.state) for r in interp.eval_list(list(call.args), st, fr)]
         if d in ("itertools.repeat", "repeat") and len(call.args) == 1 and not call.keywords:
